@@ -114,6 +114,11 @@ package base
 //@   at call insertUndoLogWithGlobalFinished#1: assert marker-for-this-branch: arg_xid == xid && arg_branchID == branchID % pow2(64) && arg_conn == conn && ghost.utx == 1 && !exists
 //@   at call ExecuteOn#1: assert same-connection: arg_conn == conn && ghost.utx == 1
 //@   at call GetUndoExecutor#1: assert C01/reverse-order: called("Reverse#1") && sqlUndoLogs == callres("deserializeBranchUndoLog#1", 0).Logs
+//@   let j := some(int, "j")
+//@   loop 2 invariant undoable-so-far: 0 <= j && j <= rangeindex2 && j < len(undoLogRecords) ==> undoLogRecords[j].LogStatus == undo.UndoLogStatueNormnal
+//@   loop 3 invariant undoable-so-far: 0 <= j && j <= rangeindex2 + 1 && j < len(undoLogRecords) ==> undoLogRecords[j].LogStatus == undo.UndoLogStatueNormnal
+//@   loop 2 invariant index: rangeindex2 >= -1
+//@   at call DeleteUndoLog#1: assert a-marker-is-never-deleted: 0 <= j && j < len(undoLogRecords) ==> undoLogRecords[j].LogStatus == undo.UndoLogStatueNormnal
 //@   loop 1 invariant tx-open: ghost.utx == 1 && ghost.conns_out == old(ghost.conns_out) + 1 && conn != nil && tx != nil && !ghost.step_failed
 //@   loop 2 invariant tx-open: ghost.utx == 1 && ghost.conns_out == old(ghost.conns_out) + 1 && conn != nil && tx != nil && !ghost.step_failed
 //@   loop 3 invariant tx-open: ghost.utx == 1 && ghost.conns_out == old(ghost.conns_out) + 1 && conn != nil && tx != nil && !ghost.step_failed
@@ -142,7 +147,7 @@ package base
 //@   ensures true
 
 //@ func (*BaseUndoLogManager).InsertUndoLog
-//@   prop C02
+//@   prop C02 C10
 //@   requires conn != nil
 //@   modifies ghost.dstep_failed, ghost.dexecs
 //@   ensures propagates: ghost.dstep_failed == (old(ghost.dstep_failed) || result != nil)
@@ -155,6 +160,8 @@ package base
 //@   modifies ghost.dstep_failed, ghost.dexecs
 //@   ensures failure-surfaces: ghost.dstep_failed ==> result != nil
 //@   ensures nothing-to-write: len(tranCtx.RoundImages.before) == 0 && len(tranCtx.RoundImages.after) == 0 ==> result == nil && ghost.dexecs == old(ghost.dexecs)
+//@   let i := some(int, "i")
+//@   ensures rows-written-means-undo-log-written: result == nil && ghost.dexecs == old(ghost.dexecs) && 0 <= i ==> (i < len(tranCtx.RoundImages.before) && tranCtx.RoundImages.before[i] != nil ==> len(tranCtx.RoundImages.before[i].Rows) == 0) && (i < len(tranCtx.RoundImages.after) && tranCtx.RoundImages.after[i] != nil ==> len(tranCtx.RoundImages.after[i].Rows) == 0)
 //@   ensures written-or-skipped: result == nil ==> ghost.dexecs == old(ghost.dexecs) || (ghost.dexecs == old(ghost.dexecs) + 1 && called("InsertUndoLog#1"))
 //@   at call InsertUndoLog#1: assert log-of-this-branch: arg_record.BranchID == tranCtx.BranchID && arg_record.XID == tranCtx.XID && arg_record.LogStatus == undo.UndoLogStatueNormnal && arg_conn == conn
 //@   at call serializeBranchUndoLog#1: assert C08/serializer-named-in-the-context: arg_serializerType == callarg("encodeUndoLogCtx#1", 1)[serializerKey]
